@@ -55,16 +55,7 @@ theorem components_spec (G : SimpleG) (hG : GoodGraph G) :
     rw [rep_congr hG hreach]
     exact ((mem_reps.1 hr').2).symm
   · intro r hr
-    have hr' := mem_reps.1 hr
-    refine ⟨compSet_closed hG r, fun v => ?_⟩
-    simp only [compSet, decide_eq_true_eq]
-    constructor
-    · rintro ⟨_, hv⟩
-      have := rep_reach (G := G) v
-      rw [hv] at this
-      exact reach_symm hG this
-    · intro h
-      exact ⟨(reach_range hG hr'.1 h).2, by rw [← rep_congr hG h]; exact hr'.2⟩
+    exact ⟨compSet_closed hG r, compSet_iff_reach hG hr⟩
   · intro r C hC hr v h
     exact closed_reach C hC h hr
 
